@@ -7,7 +7,7 @@
 From Coq Require Import String.
 From Coq Require Import List Arith ZArith.
 Import ListNotations.
-From YP Require Import Base.Str Term.Term Engine.Db Engine.DbCursor Engine.DbCursorThms Engine.DbFacts.
+From YP Require Import Base.Str Term.Term Term.Show Engine.Db Engine.DbCursor Engine.DbCursorThms Engine.DbRetractOrder Engine.DbFacts Engine.DbProg Engine.DbProgThms Engine.RunDbProg.
 
 (* "A goal that enumerates the dynamic facts of a predicate works on the facts as they were when the
    goal started: additions and removals made while the enumeration is suspended do not change which
@@ -39,6 +39,16 @@ Theorem C14_retract_at_most_once_from_init : forall mt evs s' outs,
   run mt init evs = Some (s', outs) -> NoDup (removed outs).
 Proof. intros mt evs s' outs. apply retract_at_most_once. apply ids_ok_empty. Qed.
 Print Assumptions C14_retract_at_most_once_from_init.
+
+(* "a suspended retract skips facts that have meanwhile been removed": whatever happens between its next()
+   calls, the Answers that a retract cursor removes and returns form a subsequence of the matching facts of
+   ITS SNAPSHOT, in snapshot order - it never goes back, never visits a fact added meanwhile, and
+   (C14_retract_at_most_once) never returns a fact that some other cursor has removed *)
+Theorem C14_retract_cursor_in_snapshot_order : forall mt evs s s' outs c L,
+  rcur_ids mt (scur s c) = Some L -> no_ctl c evs -> run mt s evs = Some (s', outs) ->
+  subseq (ret_ids (outs_of c evs outs)) L.
+Proof. exact retract_cursor_in_snapshot_order. Qed.
+Print Assumptions C14_retract_cursor_in_snapshot_order.
 
 (* "No modification made meanwhile is lost": the database after the history is the fold of the atomic
    updates (insert fact / delete fact id / delete ids / clear) of its events in the order in which
@@ -79,3 +89,43 @@ Example C14_drain :
     removed outs = [0; 1; 2] /\
     map fargs (sdb s' (p, 1)) = [[TInt 11%Z]; [TInt 12%Z]; [TInt 13%Z]].
 Proof. eexists. eexists. split; [vm_compute; reflexivity|]. repeat split. Qed.
+
+(* ---- the same for goals that are suspended INSIDE COMPILED CODE ----
+   DbProg.solve: clause bodies run depth first on a shared heap (goals share variables and bindings), the
+   database threaded through the search; a goal p(X) or retract(p(X)) is suspended while the rest of the
+   body runs for each of its answers, to any nesting depth.  A goal works on the list it read when it was
+   reached (DbProg.scanq / scanr recurse over that list, whatever the rest of the body publishes). *)
+
+(* "No modification made meanwhile is lost": the database after the run is the fold of the atomic updates
+   in execution order, each of them valid in the database current at that moment (a retract answer
+   deletes an Answer that is present THEN) *)
+Theorem C14_compiled_no_lost_update : forall uf prog n gs s g g' a tr,
+  ids_ok (gdb g) (gid g) -> solve uf prog n gs s g = Some (g', a, tr) ->
+  valid_trace (gdb g) (gid g) tr /\ (forall k, gdb g' k = apply_outs tr (gdb g) k) /\ ids_ok (gdb g') (gid g').
+Proof. exact prog_no_lost_update. Qed.
+Print Assumptions C14_compiled_no_lost_update.
+
+(* "never removing or returning a fact twice": over all retract goals of a run, however nested, and all
+   retractall calls *)
+Theorem C14_compiled_retract_at_most_once : forall uf prog n gs s g g' a tr,
+  ids_ok (gdb g) (gid g) -> solve uf prog n gs s g = Some (g', a, tr) -> NoDup (removed tr).
+Proof. exact prog_retract_at_most_once. Qed.
+Print Assumptions C14_compiled_retract_at_most_once.
+
+(* non-vacuity, compiled code: t(X) :- assertz(p(1)), p(X), assertz(p(2)).  has exactly the answer X = 1
+   and leaves p(1), p(2);  bump :- retract(c(N)), assertz(c(s(N))), fail.  bump.  over two counters c(0),
+   c(0) terminates, twice, and leaves c(s(s(0))), c(s(s(0))) *)
+Example C14_compiled_programs :
+  let p x := TFun (d "p") [x] in let c x := TFun (d "c") [x] in
+  run_prog 100 50 1000 [mkcl (d "t") 1 [TVar 0] [GAssert false (p (TInt 1)); GCall (d "p") [TVar 0]; GAssert false (p (TInt 2))]]
+           [(d "t", [TVar 0], 1)] [(d "p", 1)]
+  = OL [OL [otag "answers" [OL [OL [term_obs (TInt 1)]]]]; OL [OL [OL [term_obs (TInt 1)]; OL [term_obs (TInt 2)]]]; onat 2] /\
+  run_prog 100 50 1000
+           [mkcl (d "init") 0 [] [GAssert false (c (TInt 0)); GAssert false (c (TInt 0))];
+            mkcl (d "bump") 1 [] [GRetract (c (TVar 0)); GAssert false (c (TFun (d "s") [TVar 0])); GUnify (TAtom (d "a")) (TAtom (d "b"))];
+            mkcl (d "bump") 0 [] []]
+           [(d "init", [], 0); (d "bump", [], 0); (d "bump", [], 0)] [(d "c", 1)]
+  = let ss := TFun (d "s") [TFun (d "s") [TInt 0]] in
+    OL [OL [otag "answers" [OL [OL []]]; otag "answers" [OL [OL []]]; otag "answers" [OL [OL []]]];
+        OL [OL [OL [term_obs ss]; OL [term_obs ss]]]; onat 6].
+Proof. split; vm_compute; reflexivity. Qed.
